@@ -722,7 +722,7 @@ fn all_queries(m: &MetaCase) -> Vec<Query> {
 /// finding class of a query (rough port of q_class, coq/Model/PlanClass.v; the authoritative classification is Coq's)
 fn query_class(q: &Query, db: &[Table]) -> u32 {
     let d = dangers(q, db);
-    for (tag, k) in [("proj", 1), ("star", 2), ("expritem", 3), ("three", 9), ("push_blind", 4), ("push_right_cond", 5), ("outer_where", 6), ("right_names", 7), ("on_residual", 8), ("negzero_key", 10)] {
+    for (tag, k) in [("star", 2), ("expritem", 3), ("three", 9), ("push_blind", 4), ("push_right_cond", 5), ("outer_where", 6), ("right_names", 7), ("on_residual", 8), ("negzero_key", 10)] {
         if d.contains(&tag) { return k; }
     }
     0
